@@ -53,3 +53,26 @@ Theorem C15_nested_values_decoded_once :
     exists raw r, In raw levels /\ In (k, r) raw /\ v = unescape r.
 Proof. exact nested_values_decoded_once. Qed.
 Print Assumptions C15_nested_values_decoded_once.
+
+(** what the application reads with get / get_str after insert(k, raw) is the raw text decoded
+    exactly once … *)
+Theorem C15_insert_read_decoded_once :
+  forall m k v, str_ok v -> get_str (insert m k (escape v)) k = Some v.
+Proof. exact insert_read_decoded_once. Qed.
+Print Assumptions C15_insert_read_decoded_once.
+
+(** … and ParamsMap::replace decodes once and leaves exactly that value under the key *)
+Theorem C15_replace_read_decoded_once :
+  forall m k v, str_ok v ->
+  get_str (replace m k (escape v)) k = Some v /\ get_all (replace m k (escape v)) k = Some [v].
+Proof. exact replace_read_decoded_once. Qed.
+Print Assumptions C15_replace_read_decoded_once.
+
+(** the nested router for any chain of routes and any depth: every value a component reads
+    from its params map is the once-decoded text of a raw segment bound to that name *)
+Theorem C15_level_values_decoded_once :
+  forall own m k vs v,
+    In m (level_maps own) -> In (k, vs) m -> In v vs ->
+    exists lvl r, In lvl own /\ In (k, r) lvl /\ v = unescape r.
+Proof. exact level_values_decoded_once. Qed.
+Print Assumptions C15_level_values_decoded_once.
